@@ -339,6 +339,16 @@ def sites(fn: ast.FunctionDef) -> dict[int, int]:
     return out
 
 
+def final_range(repo: Path) -> tuple[int, int]:
+    """Lenient: line range of the `finally` block of the last top-level try of the loop function (oracle-only mode)."""
+    fn = _find_fn(ast.parse((repo / "vgi_rpc" / "rpc" / "_transport.py").read_text()), "_serve_socket_threaded", SITE)
+    tries = [n for n in fn.body if isinstance(n, ast.Try) and n.finalbody]
+    if not tries:
+        raise TranslationBroken(SITE, "no top-level try/finally")
+    fb = tries[-1].finalbody
+    return fb[0].lineno, max(getattr(n, "end_lineno", n.lineno) for n in fb)
+
+
 def _contains_block(body: list[ast.stmt], template: str) -> bool:
     want = ast.parse(template).body
     n = len(want)
